@@ -738,6 +738,9 @@ def tiny_vector(c):
     return False
 
 
+JOLT_ILLCOND = False     # set in run(): C18-JOLT-ILLCOND / C18-ORIG-ILLCOND recorded
+
+
 COLL_TOL = dict(gjk_jolt=1e-5, gjk_original=1e-3, nesterov_distance=1e-3, nesterov_prim_distance=1e-3, nesterov=1e-3,
                 nesterov_prim=1e-3, mpr_pen=2e-3, epa=1e-6, support=1e-9, center=1e-9)
 
@@ -785,6 +788,14 @@ def compare_collider(c, rj, ri, T):
         if "exc" in a:
             continue
         tol = COLL_TOL.get(fn, 1e-9) * L
+        if fn in ("gjk_jolt", "gjk_original") and JOLT_ILLCOND and any(
+                r_.get("a") is not None and r_.get("d", 0.0) < 1e300 and
+                abs(float(np.linalg.norm(np.array(r_["a"]) - np.array(r_["b"]))) - r_["d"]) > tol for r_ in (a, b)):
+            # the answer of one mode contradicts ITSELF beyond the tolerance of C01 (d taken from a bogus, too short
+            # simplex-solver result on a thin simplex while the closest points are right): recorded class
+            # C18-JOLT-ILLCOND / C18-ORIG-ILLCOND surfacing in the distance query; judged by C01 / C18, not a mode difference
+            T.hit("skip_gjk_self_inconsistent_C18_illcond")
+            continue
         for key in sorted(set(a) | set(b)):
             if key in ("fn", "n_points", "simplex", "last_simplex", "last_d2"):     # diagnostics of the worker, path dependent
                 continue
@@ -945,6 +956,8 @@ def run(tier, seed, replay=None):
 
     # ---------------------------------------------------------------- compare
     fam_hist, fam_cmp = {}, {}
+    global JOLT_ILLCOND
+    JOLT_ILLCOND = bool({"C18-JOLT-ILLCOND", "C18-ORIG-ILLCOND"} & c12.foreign_known("C18"))
     known = {e["id"]: e for e in R.known}
     distinct = set()
     fails = []
